@@ -812,6 +812,10 @@ def _read_asn1_integer(
         tag = header.tag if header else ASN1Tag.universal_tag(TypeTagNumber.INTEGER, False)
 
     raw_int, consumed = _validate_tag(data, tag, header=header, hint=hint)
+    if not raw_int:
+        hint_str = f" for {hint}" if hint else ""
+        raise ValueError(f"Invalid INTEGER value{hint_str}: the contents must be at least one octet")
+
     b_int = bytearray(raw_int)
 
     is_negative = b_int[0] & 0b10000000
